@@ -531,6 +531,11 @@ int64_t cmi_pool_acquire_inner(struct cmb_resourcepool *rpp,
                     found = cmi_process_remove_holdable(caller, hrp);
                     cmb_assert_debug(found == true);
                 }
+
+                if (holds_now > 0u) {
+                    /* Units went back to the pool, someone may be waiting for them */
+                    cmb_resourceguard_signal(&(rpp->guard));
+                }
             }
 
             cmb_assert_debug(rpp->in_use <= rpp->capacity);
